@@ -32,10 +32,14 @@ pub struct Shadow {
     /// flip bit `.1` of application payload byte `.0` (TCP, UDP) in the sibling
     #[serde(default)]
     pub pay: Option<(u8, u8)>,
+    /// give the sibling's application payload (TCP, UDP) this length: cut short, or extended with
+    /// filler bytes (length fields and checksums follow)
+    #[serde(default)]
+    pub resize: Option<u8>,
 }
 
 pub fn shadow() -> impl Strategy<Value = Shadow> {
-    (0u8..6, prop::option::weighted(0.45, (prop_oneof![3 => 0u8..8, 2 => 0u8..40, 1 => 0u8..120], 0u8..8))).prop_map(|(vary, pay)| Shadow { vary, pay })
+    (0u8..6, prop::option::weighted(0.45, (prop_oneof![3 => 0u8..8, 2 => 0u8..40, 1 => 0u8..120], 0u8..8)), prop::option::weighted(0.3, prop_oneof![2 => prop::sample::select(vec![20u8, 28, 5, 8, 16, 44]), 2 => 0u8..64, 1 => any::<u8>()])).prop_map(|(vary, pay, resize)| Shadow { vary, pay, resize })
 }
 
 /// the usual dose: three cases in ten carry shadow traffic
@@ -180,9 +184,9 @@ fn l4_csum_off(proto: u8) -> Option<usize> {
     }
 }
 
-fn l4_sum(f: &[u8], p: &Parsed) -> u16 {
+fn l4_sum(f: &[u8], p: &Parsed, end: usize) -> u16 {
     let (s, d) = ipaddrs(f, p);
-    let seg = &f[p.l4..p.end];
+    let seg = &f[p.l4..end];
     let acc = if p.proto == P_ICMP { 0 } else { pseudo(&s, &d, p.proto, seg.len()) };
     inet_csum(seg, acc)
 }
@@ -242,7 +246,7 @@ fn sibling(f: &[u8], sh: &Shadow, allow_dst: bool, cookies: &HashMap<Key, (Optio
             (8, false)
         }
     };
-    let l4_ok = l4_sum(f, &p) == 0 && !(p.proto == P_UDP && p.v4 && be16(f, p.l4 + co) == 0);
+    let l4_ok = l4_sum(f, &p, p.end) == 0 && !(p.proto == P_UDP && p.v4 && be16(f, p.l4 + co) == 0);
     let ip_ok = !p.v4 || inet_csum(&f[p.l3..p.l4], 0) == 0;
     let multicast = f[0] & 1 == 1;
     let mut vary = sh.vary;
@@ -301,6 +305,33 @@ fn sibling(f: &[u8], sh: &Shadow, allow_dst: bool, cookies: &HashMap<Key, (Optio
             }
         }
     }
+    let mut end = p.end;
+    if let Some(n) = sh.resize {
+        if p.proto == P_TCP || p.proto == P_UDP {
+            let start = p.l4 + hdr;
+            let cur = end - start;
+            let n = n as usize;
+            if n < cur {
+                g.drain(start + n..end);
+            } else if n > cur {
+                let tail = g.split_off(end);
+                g.resize(start + n, 0x41);
+                g.extend_from_slice(&tail);
+            }
+            end = start + n;
+            if p.v4 {
+                let tl = (end - p.l3) as u16;
+                g[p.l3 + 2..p.l3 + 4].copy_from_slice(&tl.to_be_bytes());
+            } else {
+                let pl = (end - p.l4) as u16;
+                g[p.l3 + 4..p.l3 + 6].copy_from_slice(&pl.to_be_bytes());
+            }
+            if p.proto == P_UDP {
+                let ul = (end - p.l4) as u16;
+                g[p.l4 + 4..p.l4 + 6].copy_from_slice(&ul.to_be_bytes());
+            }
+        }
+    }
     if p.v4 && ip_ok {
         g[p.l3 + 10] = 0;
         g[p.l3 + 11] = 0;
@@ -311,7 +342,7 @@ fn sibling(f: &[u8], sh: &Shadow, allow_dst: bool, cookies: &HashMap<Key, (Optio
     if l4_ok {
         g[p.l4 + co] = 0;
         g[p.l4 + co + 1] = 0;
-        let mut c = l4_sum(&g, &p);
+        let mut c = l4_sum(&g, &p, end);
         if p.proto == P_UDP && c == 0 {
             c = 0xffff;
         }
